@@ -111,6 +111,58 @@ def trial(name, ids):
     return 0
 
 
+def vverify(pid, k):
+    """property-PRESERVING variant from /tmp/wt/V<nn>/out5: suite passes with it; the demo (if any) passes
+    with it and fails without it; stored under seeded/_variants/<pid>-v<k>/"""
+    wt = "/tmp/wt/V%s" % pid[1:]
+    out = os.path.join(wt, "out5")
+    patch = os.path.join(out, "variant%s.diff" % k)
+    demo = os.path.join(out, "vdemo%s.rs" % k)
+    meta = json.load(open(os.path.join(out, "vmeta%s.json" % k)))
+    sh(["git", "checkout", "--", "."], wt)
+    shutil.rmtree(os.path.join(wt, "tests"), ignore_errors=True)
+    res = {}
+    rc, o = sh(["git", "apply", patch], wt)
+    if rc != 0:
+        print("patch does not apply:", o)
+        return 1
+    ok, summ = suite(wt)
+    res["suite_passes_with_change"] = ok
+    res["suite_summary"] = summ
+    extra = FEATURES.get(pid, [])
+    if extra:
+        rc, o = sh(["cargo", "test", "--offline", "--features", "numtraits,rand", "--lib"], wt)
+        res["feature_suite_passes_with_change"] = rc == 0
+    if os.path.exists(demo):
+        os.makedirs(os.path.join(wt, "tests"), exist_ok=True)
+        shutil.copy(demo, os.path.join(wt, "tests", "vdemo%s.rs" % k))
+        cmd = ["cargo", "test", "--offline", "--test", "vdemo%s" % k] + extra
+        rc, o = sh(cmd, wt)
+        res["demo_passes_with_change"] = rc == 0
+        sh(["git", "checkout", "--", "."], wt)
+        rc, o = sh(cmd, wt)
+        res["demo_fails_without_change"] = rc != 0
+        shutil.rmtree(os.path.join(wt, "tests"), ignore_errors=True)
+    sh(["git", "checkout", "--", "."], wt)
+    good = res["suite_passes_with_change"] and res.get("feature_suite_passes_with_change", True) and res.get("demo_passes_with_change", True)
+    print(pid, k, "VARIANT-OK" if good else "VARIANT-REJECTED", res)
+    if good:
+        d = "/verif/seeded/_variants/%s-v%s" % (pid, k)
+        os.makedirs(d, exist_ok=True)
+        shutil.copy(patch, os.path.join(d, "patch.diff"))
+        if os.path.exists(demo):
+            shutil.copy(demo, os.path.join(d, "vdemo.rs"))
+        meta["property"] = pid
+        meta["origin"] = "independent sub-agent given only the property text; asked for a change under which the property still holds"
+        meta["confirmed_by_me"] = res
+        json.dump(meta, open(os.path.join(d, "meta.json"), "w"), indent=1)
+    return 0 if good else 1
+
+
+if __name__ == "__main__" and sys.argv[1] == "vverify":
+    sys.exit(vverify(*sys.argv[2:]))
+
+
 if __name__ == "__main__":
     if sys.argv[1] == "verify":
         sys.exit(verify(*sys.argv[2:]))
